@@ -303,7 +303,15 @@ pub fn with_day_budget<T>(steps: u64, f: impl FnOnce() -> T) -> Result<Option<T>
     hooks::disarm_budgets();
     match r {
         Ok(x) => Ok(Some(x)),
-        Err(p) if p.starts_with("step budget exceeded") => Ok(None),
+        Err(p) if p.starts_with("step budget exceeded") => {
+            // a budget on the minute stepping of the zone mapping is a verdict, not a cost cut
+            let t = hooks::ticks();
+            if t[hooks::Site::TzMinuteStep as usize] >= 200_000 {
+                Err("unbounded work: more than 200000 minute steps while mapping a naive result into the zone (the gap is never left)".to_string())
+            } else {
+                Ok(None)
+            }
+        }
         Err(p) => Err(p),
     }
 }
